@@ -190,14 +190,155 @@ fn explore<C: Cfg>(report: &Report, alphabet: &[Letter], depth: usize, label: &s
         "wall_s": t.elapsed().as_secs_f64()}));
 }
 
+/// Single-step SYNCHRONISATION induction from arbitrary coder states (built with `from_raw_parts`):
+/// for state (lower, range) and letter l,
+///  * the encoder's next state is the one the textbook step prescribes
+///    (scale = range >> P; lower += scale*c; range = scale*p; shift by one word when range < 2^(S-W));
+///  * a decoder in the same state whose point lies anywhere in [lower, lower+range) decodes exactly the part
+///    of the model that contains (point - lower) / scale, reports InvalidData exactly for the points in the
+///    unusable top slice (quantile >= 2^P), and lands in the same next state as the encoder would for that
+///    part, with its point shifted in step and still inside the new interval.
+/// Together with the history walks from the initial state this is an inductive argument that encoder and
+/// decoder stay in lock-step from every state, not only from those reachable within the depth bound.
+fn sync_steps<C: Cfg>(report: &Report, lowers: &[u128], ranges: &[u128], letters: &[Letter], label: &str) {
+    use constriction::backends::Cursor;
+    use rayon::prelude::*;
+    let (wb, sb) = (C::WBITS, C::SBITS);
+    let modmask: u128 = if sb == 128 { u128::MAX } else { (1u128 << sb) - 1 };
+    let minr: u128 = 1u128 << (sb - wb);
+    let next: [u128; 2] = [0xa5, 0x3c];
+    let res: Vec<(u64, u64, u64, u64, Vec<(String, String)>)> = lowers.par_iter().map(|&lower| {
+        let (mut steps, mut invalid, mut renorm, mut wraps) = (0u64, 0u64, 0u64, 0u64);
+        let mut bad: Vec<(String, String)> = vec![];
+        for &range in ranges {
+            if range < minr || range > modmask { continue; }
+            let Ok(st) = RangeCoderState::<C::W, C::S>::new(C::s(lower), C::s(range)) else { panic!("HARNESS: valid raw state refused") };
+            if lower.checked_add(range).map_or(true, |x| x > modmask) { wraps += 1; }
+            for &l in letters {
+                if (sb - wb) < l.prec as u32 { continue; }
+                let scale = range >> l.prec;
+                let reference = |c: u128, p: u128| -> (u128, u128, bool) {
+                    let (mut nl, mut nr) = (lower.wrapping_add(scale * c) & modmask, scale * p);
+                    let sh = nr < minr;
+                    if sh { nl = (nl << wb) & modmask; nr <<= wb; }
+                    (nl, nr, sh)
+                };
+                let ctx = |what: &str| format!("{}: lower {lower:#x} range {range:#x} letter {:?}: {what}", C::NAME, l);
+                // encoder
+                let mut e = RangeEncoder::<C::W, C::S>::from_raw_parts(Vec::new(), st, EncoderSituation::Normal);
+                C::range_encode(&mut e, l).expect("HARNESS: Vec backend");
+                steps += 1;
+                let (_, est, _) = e.into_raw_parts();
+                let (nl, nr, sh) = reference(l.c as u128, l.p as u128);
+                if sh { renorm += 1; }
+                use constriction::NonZeroBitArray;
+                if est.lower().into() != nl || est.range().get().into() != nr {
+                    bad.push((format!("RangeEncoder::encode_symbol (single step) | {} | next state differs from the textbook step", C::NAME),
+                        ctx(&format!("got (lower {:#x}, range {:#x}), expected ({nl:#x}, {nr:#x})", est.lower().into(), est.range().get().into()))));
+                }
+                // decoder at points all over the interval
+                let total = 1u128 << l.prec;
+                let (c, p) = (l.c as u128, l.p as u128);
+                let mut offs: Vec<u128> = vec![scale * c, scale * (c + p) - 1, scale * c + (scale * p) / 2, 0, range - 1, scale * total - 1];
+                if c > 0 { offs.push(scale * c - 1); }
+                if c + p < total { offs.push(scale * (c + p)); }
+                if scale * total < range { offs.push(scale * total); offs.push(scale * total / 2 + range / 2); }
+                for off in offs {
+                    if off >= range { continue; }
+                    let point = lower.wrapping_add(off) & modmask;
+                    let src = Cursor::new_at_write_beginning(vec![C::w(next[0]), C::w(next[1])]);
+                    let Ok(mut d) = RangeDecoder::<C::W, C::S, _>::from_raw_parts(src, st, C::s(point)) else {
+                        bad.push((format!("RangeDecoder::from_raw_parts | {} | point inside the interval refused", C::NAME), ctx(&format!("point {point:#x}"))));
+                        continue;
+                    };
+                    let q = off / scale;
+                    let r = C::range_decode(&mut d, l);
+                    steps += 1;
+                    if q >= total {
+                        invalid += 1;
+                        if !matches!(r, Err(constriction::CoderError::Frontend(_))) {
+                            bad.push((format!("RangeDecoder::decode_symbol (single step) | {} | point in the unusable top slice not reported as invalid data", C::NAME), ctx(&format!("point {point:#x} quantile {q}: {:?}", r.as_ref().map_err(|_| "backend")))));
+                        }
+                        continue;
+                    }
+                    let exp: u8 = if q < c { 0 } else if q < c + p { 1 } else { 2 };
+                    match r {
+                        Ok(k) if k == exp => {
+                            let (pc, pp) = crate::models::part_interval(l.prec, l.c, l.p, k);
+                            let (nl, nr, sh) = reference(pc as u128, pp as u128);
+                            let (_, dst, dpoint) = d.into_raw_parts();
+                            let exp_point = if sh { ((point << wb) & modmask) | next[0] } else { point };
+                            let (gl, gr, gp): (u128, u128, u128) = (dst.lower().into(), dst.range().get().into(), dpoint.into());
+                            if gl != nl || gr != nr || gp != exp_point || (gp.wrapping_sub(gl) & modmask) >= gr {
+                                bad.push((format!("RangeDecoder::decode_symbol (single step) | {} | decoder state after the step is not the encoder's", C::NAME),
+                                    ctx(&format!("point {point:#x}: got (lower {gl:#x}, range {gr:#x}, point {gp:#x}), expected ({nl:#x}, {nr:#x}, {exp_point:#x})"))));
+                            }
+                        }
+                        other => bad.push((format!("RangeDecoder::decode_symbol (single step) | {} | decodes a different part than the one containing the point", C::NAME),
+                            ctx(&format!("point {point:#x} quantile {q}: got {:?}, expected part {exp}", other.map_err(|_| "error"))))),
+                    }
+                }
+                if bad.len() > 12 { break; }
+            }
+        }
+        (steps, invalid, renorm, wraps, bad)
+    }).collect();
+    let (mut steps, mut invalid, mut renorm, mut wraps) = (0, 0, 0, 0);
+    let mut seen = std::collections::BTreeMap::<String, u32>::new();
+    for (a, b, c, d, bad) in res {
+        steps += a; invalid += b; renorm += c; wraps += d;
+        for (i, dt) in bad {
+            let n = seen.entry(i.clone()).or_insert(0);
+            if *n < 3 { *n += 1; report.violation(crate::report::Violation { identity: i, detail: dt, case: json!({"kind": "none"}) }); }
+        }
+    }
+    report.add_states((lowers.len() * ranges.len()) as u64);
+    report.add_transitions(steps);
+    report.count("sync_single_steps", steps);
+    report.count("sync_points_in_unusable_slice", invalid);
+    report.count("sync_steps_that_renormalise", renorm);
+    report.count("sync_states_with_wrapping_interval", wraps);
+    report.section(json!({"cfg": C::NAME, "part": "single-step synchronisation from arbitrary states", "states": label, "lowers": lowers.len(), "ranges": ranges.len(),
+        "letters": letters.len(), "real_encode_decode_calls": steps, "invalid_data_points": invalid, "renormalising_steps": renorm}));
+}
+
+fn boundary_values(sb: u32, from_bit: u32, width: u128) -> Vec<u128> {
+    let top: u128 = if sb == 128 { u128::MAX } else { (1u128 << sb) - 1 };
+    let mut v = vec![];
+    for d in 0..width { v.push(d); v.push(top - d); v.push((1u128 << from_bit) + d); }
+    for k in from_bit..sb { let b = 1u128 << k; for d in 0..=2u128 { v.push(b + d); v.push(b - d.min(b)); } v.push(b + b / 3); v.push(b + b / 2 + 1); }
+    v.push(top / 3); v.push(top / 5 * 4); v.push(top - top / 7);
+    v.retain(|&x| x <= top);
+    v.sort(); v.dedup();
+    v
+}
+
 pub fn run(report: &Report) {
     use crate::models::*;
-    report.bound("all symbol sequences over the listed alphabets up to the listed depth; every node sealed and fully decoded");
+    report.bound("all symbol sequences over the listed alphabets up to the listed depth; every node sealed and fully decoded; single-step synchronisation of encoder and decoder from arbitrary raw states (all lower values x boundary ranges on (u8,u16), boundary x boundary on the six wider instantiations) x all letters x points all over the interval");
     report.assume("entropy models are the hand-made Raw/Part models: a coder only ever sees (left cumulative, probability), so these cover all well-formed models at the listed precisions");
     for n in ["nodes_inverted", "nodes_inverted_run_ge2", "carry_resolved_plus_one_then_zeros", "carry_resolved_same_then_ones", "seals_while_inverted", "two_word_seals", "clear_checks_while_inverted"] {
         report.require(n);
     }
     let q = report.tier == Tier::Quick;
+    for n in ["sync_single_steps", "sync_points_in_unusable_slice", "sync_steps_that_renormalise", "sync_states_with_wrapping_interval"] {
+        report.require(n);
+    }
+    {
+        // (u8,u16): every lower (quick: every 7th + boundaries) x boundary ranges; wider types: boundary x boundary
+        let mut lowers16: Vec<u128> = if q { (0..65536u128).step_by(7).collect() } else { (0..65536u128).collect() };
+        lowers16.extend(boundary_values(16, 0, 40));
+        lowers16.sort(); lowers16.dedup();
+        let ranges16 = boundary_values(16, 8, if q { 40 } else { 300 });
+        sync_steps::<U8U16>(report, &lowers16, &ranges16, &pairs_alphabet::<U8U16>(), "all (quick: every 7th) lower x boundary ranges");
+        let w = if q { 12 } else { 200 };
+        sync_steps::<U8U32>(report, &boundary_values(32, 0, w), &boundary_values(32, 24, w), &pairs_alphabet::<U8U32>(), "boundary x boundary");
+        sync_steps::<U8U64>(report, &boundary_values(64, 0, w), &boundary_values(64, 56, w), &pairs_alphabet::<U8U64>(), "boundary x boundary");
+        sync_steps::<U16U32>(report, &boundary_values(32, 0, w), &boundary_values(32, 16, w), &pairs_alphabet::<U16U32>(), "boundary x boundary");
+        sync_steps::<U16U64>(report, &boundary_values(64, 0, w), &boundary_values(64, 48, w), &pairs_alphabet::<U16U64>(), "boundary x boundary");
+        sync_steps::<U32U64>(report, &boundary_values(64, 0, w), &boundary_values(64, 32, w), &pairs_alphabet::<U32U64>(), "boundary x boundary");
+        sync_steps::<U64U128>(report, &boundary_values(128, 0, w), &boundary_values(128, 64, w), &pairs_alphabet::<U64U128>(), "boundary x boundary");
+    }
     // S = 2W and S = 4W with 8-bit words: every carry situation within depth 6
     explore::<U8U16>(report, &range_alphabet12::<U8U16>(), if q { 5 } else { 7 }, "a12@P8");
     explore::<U8U32>(report, &range_alphabet12::<U8U32>(), if q { 5 } else { 7 }, "a12@P8");
